@@ -13,6 +13,10 @@ Driver for the Nyquist family (C13).  Lines (after the family token `nyq`):
   asks for (`feature_periphery_decades=2` forwarded; `cfg` = the configured default periphery): `ok <lsp_min> <lsp_max>`.
 * `omega <npts> <N | nyq> <n> om{n}` — `omega_sys` before points are inserted near poles (linspace from 0 to the
   first grid point; discrete time: cut below the Nyquist frequency, which is appended): `ok <n> w{n}` or `err <Err>`.
+* `tb <pi> <n> dt{n}` — the loop is a product of `n` parts with these timebases (`N | C | T | D<p/q>`): the loop's
+  timebase (`common_timebase` folded), the feature branch of `_default_frequency_range`, the Nyquist frequency the grid
+  is cut at, whether the poles are taken as s-plane poles, and the four predicates `isctime()`, `isctime(strict=True)`,
+  `isdtime()`, `isdtime(strict=True)`: `ok <dt> <C|D|S> <N | nyq> <0|1> <0|1> <0|1> <0|1> <0|1>` or `err <Err>`.
 -/
 import CtrlVerif.Driver.Util
 import CtrlVerif.Model.Nyquist
@@ -103,6 +107,22 @@ def hOmega : P String := do
   | .error e => pure (showErr e)
   | .ok l => pure ("ok " ++ showRats l)
 
+def hTb : P String := do
+  let pi ← pRat
+  let parts ← pList pDt
+  match loopTimebase parts with
+  | .error e => pure (showErr e)
+  | .ok d =>
+    let br := match featureBranch d with
+      | .continuous => "C"
+      | .discrete => "D"
+      | .skipped => "S"
+    let nq := match nyquistFreq pi d with
+      | none => "N"
+      | some f => showRat f
+    let b := fun (x : Bool) => if x then "1" else "0"
+    pure s!"ok {showDt d} {br} {nq} {b (polesInSPlane d)} {b (DtPred.isctime false d)} {b (DtPred.isctime true d)} {b (DtPred.isdtime false d)} {b (DtPred.isdtime true d)}"
+
 def handle (toks : List String) : String :=
   match toks with
   | "count" :: rest => runLine hCount rest
@@ -111,6 +131,7 @@ def handle (toks : List String) : String :=
   | "pz" :: rest => runLine hPZ rest
   | "grid" :: rest => runLine hGrid rest
   | "omega" :: rest => runLine hOmega rest
+  | "tb" :: rest => runLine hTb rest
   | op :: _ => s!"bad-op nyq:{op}"
   | [] => "bad-op nyq:empty"
 
